@@ -104,10 +104,16 @@ type Sched struct {
 	// returns true if the execution can be abandoned.
 	pruneFn func(idx int, fp uint64, cost int) bool
 
+	fpNoCur bool // unbounded search: who is running does not matter
+
 	hooks []func() // per-execution reset hooks registered by shims
 }
 
 var S = &Sched{}
+
+// FingerprintIgnoresRunning is set by the explorer for unbounded searches,
+// where the identity of the running goroutine has no influence on the future.
+var FingerprintIgnoresRunning bool
 
 // Active reports whether a controlled execution is in progress.
 func Active() bool { return S.active }
@@ -158,7 +164,7 @@ func (s *Sched) fingerprint() uint64 {
 			fp += mix(g.hid, g.h)
 		}
 	}
-	if s.cur != nil {
+	if s.cur != nil && !s.fpNoCur {
 		fp = mix(fp, s.cur.hid)
 	}
 	return fp
@@ -246,9 +252,7 @@ func Exit(code int) {
 
 // end finishes the execution; called by the running goroutine.
 func (s *Sched) end(st Status) {
-	if s.ended {
-		return
-	}
+	// the send must be the last access to s by this goroutine
 	s.ended = true
 	s.status = st
 	s.endCh <- struct{}{}
@@ -305,21 +309,24 @@ func (o *op) isEnabled() bool {
 	return o.enabled()
 }
 
+// parkForever is called by a goroutine right after it ended the execution (or
+// noticed it ended): it must not touch S any more.
+func parkForever(self *G) {
+	if self.done {
+		return
+	}
+	<-self.wake
+	runtime.Goexit()
+}
+
 // schedule is run by goroutine self (parked with self.pend set, or done).
 func (s *Sched) schedule(self *G) {
 	for {
-		if s.ended {
-			// execution over: park forever (until killed)
-			if self.done {
-				return
-			}
-			<-self.wake
-			runtime.Goexit()
-		}
 		s.steps++
 		if s.steps > s.maxSteps {
 			s.end(StStepLimit)
-			continue
+			parkForever(self)
+			return
 		}
 		// collect enabled goroutines in canonical order
 		var evG []*G
@@ -343,7 +350,8 @@ func (s *Sched) schedule(self *G) {
 				continue
 			}
 			s.end(StDeadlock)
-			continue
+			parkForever(self)
+			return
 		}
 		cost := 0
 		if curEnabled {
@@ -352,8 +360,9 @@ func (s *Sched) schedule(self *G) {
 		c := 0
 		if n > 1 {
 			c = s.choose(n, cost, 's')
-			if s.ended {
-				continue
+			if c < 0 {
+				parkForever(self)
+				return
 			}
 		}
 		if c >= len(evG) {
@@ -377,7 +386,8 @@ func (s *Sched) schedule(self *G) {
 	}
 }
 
-// choose records a choice point with n alternatives.
+// choose records a choice point with n alternatives.  It returns -1 if the
+// execution was ended here (pruned): the caller must park without touching S.
 func (s *Sched) choose(n, cost int, kind byte) int {
 	idx := len(s.trace)
 	c := 0
@@ -395,7 +405,7 @@ func (s *Sched) choose(n, cost int, kind byte) int {
 			if s.pruneFn(idx, mix(s.fingerprint(), uint64(kind)), cost) {
 				s.trace = append(s.trace, pointRec{N: n, Chosen: c, Cost: cost, Kind: kind})
 				s.end(StPruned)
-				return 0
+				return -1
 			}
 		}
 	}
@@ -416,10 +426,9 @@ func Choose(n int, cost int) int {
 	if s.cur != nil && (s.cur.killed || s.killing) {
 		runtime.Goexit()
 	}
+	g := s.cur
 	c := s.choose(n, cost, 'e')
-	if s.ended {
-		// pruned: park
-		g := s.cur
+	if c < 0 {
 		<-g.wake
 		runtime.Goexit()
 	}
@@ -515,6 +524,7 @@ func RunOnce(main func(), prefix []int, maxSteps int, prune func(idx int, fp uin
 	s.exitCh = make(chan struct{})
 	s.chans = make(map[uintptr]*chanState)
 	s.pruneFn = prune
+	s.fpNoCur = FingerprintIgnoresRunning
 	for _, h := range s.hooks {
 		h()
 	}
